@@ -44,6 +44,7 @@ _PHI = math.radians(BASE_LAT)
 _M = CR.WGS84_A * (1 - CR.WGS84_E2) / (1 - CR.WGS84_E2 * math.sin(_PHI) ** 2) ** 1.5
 DEG_PER_M = 1.0 / math.radians(1.0) / _M
 MISSABLE = ("track", "speed", "lat", "lon", "time")
+ORIG_T_CHECK = F.ctm.T_CHECK_CAM_GEN      # configuration of the tree under test (T_CheckCamGen, ms)
 
 
 def mk_tpv(w, kind, arg):
@@ -99,14 +100,15 @@ class CamModel:
         self.first_delays = list(first_delays) if first_delays is not None else self.delays
 
     def _patch(self):
-        # T_CheckCamGen is a module constant read at call time ("T_CheckCamGen <= T_GenCamMin"): configuration, not code
-        F.ctm.T_CHECK_CAM_GEN = self.check_period
+        # T_CheckCamGen is a module constant read at call time ("T_CheckCamGen <= T_GenCamMin"): configuration, not code.
+        # check_period None = leave the tree's own value in place (a changed constant is then *not* masked).
+        F.ctm.T_CHECK_CAM_GEN = ORIG_T_CHECK if self.check_period is None else self.check_period
 
     def init(self):
         self._patch()
         w = F.FacWorld()
         w.add_cam()
-        w.ref = CR.CamRules(self.check_period)
+        w.ref = CR.CamRules(100 if self.check_period is None else self.check_period)
         w.h, w.s, w.p = 1, 0, 0
         w.bad, w.cut, w.starts, w.last_n = [], False, 0, 0
         return w
@@ -178,7 +180,7 @@ class CamModel:
         out = []
         for r in w.bad:
             r = dict(r)
-            r["check_period"] = self.check_period
+            r["check_period"] = 100 if self.check_period is None else self.check_period
             r["_cut"] = True
             out.append(r)
         return out
@@ -218,12 +220,18 @@ def mk_cam(*a):
 # VAM
 # ------------------------------------------------------------------------------------------------------
 class VamModel:
-    def __init__(self, periods, dyns, gaps=(), clustering=False, seed=0):
+    def __init__(self, periods, dyns, gaps=(), clustering=False, seed=0, start_gdt=None):
         self.periods, self.dyns, self.gaps = list(periods), [tuple(d) for d in dyns], list(gaps)
         self.clustering, self.seed = clustering, seed
+        # start_gdt: absolute start time chosen so that generationDeltaTime(start) == start_gdt (wrap lattice); absolute
+        # time is then part of the canonical state (no translation-invariance argument is used in those parts)
+        self.start_gdt = start_gdt
 
     def init(self):
-        w = F.FacWorld()
+        start = F.BASE_MS
+        if self.start_gdt is not None:
+            start += (self.start_gdt - F.its_ms(F.BASE_MS)) % 65536
+        w = F.FacWorld(start_ms=start)
         w.add_vam(clustering=self.clustering)
         w.ref = VR.VamRules()
         w.h, w.s, w.p = 1, 0, 0
@@ -305,7 +313,8 @@ class VamModel:
                     tm.is_first_vam, None if w.cluster is None else w.cluster.state.name)
         except AttributeError:
             impl = X.generic_canon({k: v for k, v in vars(tm).items() if k not in ("btp_router", "vam_coder", "logging")})
-        return (impl, w.ref.state(ms), w.h, w.s, w.p, _tpv_proj(w.ref.last_vam_report), w.cut, w.idle)
+        return (impl, w.ref.state(ms), w.h, w.s, w.p, _tpv_proj(w.ref.last_vam_report), w.cut, w.idle,
+                None if self.start_gdt is None else F.its_ms(ms) % 65536)
 
     def outcome(self, w, obs):
         return ("vam", w.last_n, w.ref.last_lf_ms == w.ref.last_vam_ms and w.last_n > 0, w.cut)
@@ -368,8 +377,7 @@ def _gdt_pipeline(args):
                             w.report(w.vam_tm, tpv)
                         msgs = [F.coder(which).decode(s.data) for s in w.sent]
                     except Exception as e:  # noqa: BLE001
-                        bad.append(dict(kind=which + "_exception", exc=type(e).__name__, unix_ms=unix_ms, frac=fr, detail=str(e)[:60],
-                                        event="gdt_pipeline", missing="", first=True))
+                        bad.append(dict(kind=which + "_gdt_pipeline_exception", exc=type(e).__name__, unix_ms=unix_ms, frac=fr, detail=str(e)[:60]))
                         continue
                     if len(msgs) != 1:
                         bad.append(dict(kind=which + "_gdt_pipeline_count", count=len(msgs), unix_ms=unix_ms, frac=fr))
@@ -389,14 +397,14 @@ def _parts(thorough, seed):
     none = ["none", 0]
     cam = [
         # label, args(periods, dyns, delays, check_period, allow_stop, gaps, seed, first_delays), depth, split
-        ("cam_timing", ([20, 100, 250, 1000], D(none, ["s", 2], ["s", 0]), [0, 50, 99], 100, True, [1200], seed), 7 if thorough else 5, 2),
+        ("cam_timing", ([20, 100, 250, 1000], D(none, ["s", 2], ["s", 0]), [0, 50, 99], None, True, [1200], seed), 7 if thorough else 5, 2),
         ("cam_thresholds", ([100], D(none, *[["h", i] for i in range(5)], *[["s", i] for i in range(4)], *[["p", i] for i in range(4)]),
-                            [0], 100, False, [], seed), 7 if thorough else 5, 2),
-        ("cam_missing", ([100, 1000], D(none, *[["miss", f] for f in MISSABLE], ["s", 2], ["h", 3]), [0], 100, True, [], seed),
+                            [0], None, False, [], seed), 6 if thorough else 5, 2),
+        ("cam_missing", ([100, 1000], D(none, *[["miss", f] for f in MISSABLE], ["s", 2], ["h", 3]), [0], None, True, [], seed),
          6 if thorough else 4, 2),
-        ("cam_fast_lf", ([100], D(["s", 2], ["s", 0], none), [0], 100, False, [], seed), 14 if thorough else 10, 2),
+        ("cam_fast_lf", ([100], D(["s", 2], ["s", 0], none), [0], None, False, [], seed), 14 if thorough else 10, 2),
         ("cam_check50", ([20, 100], D(none, ["s", 2], ["s", 0], ["h", 3], ["h", 1]), [0, 49], 50, True, [], seed), 8 if thorough else 6, 2),
-        ("cam_steady", ([1000, 100], D(none), [0], 100, False, [], seed, [0]), 400, 1),
+        ("cam_steady", ([1000, 100], D(none), [0], None, False, [], seed, [0]), 400, 1),
     ]
     if thorough:
         cam.append(("cam_check20", ([20, 100], D(none, ["s", 2], ["s", 0]), [0, 19], 20, False, [], seed), 9, 2))
@@ -408,17 +416,21 @@ def _parts(thorough, seed):
         ("vam_missing", ([20, 100, 1000], D(none, *[["miss", f] for f in MISSABLE]), [], False, seed), 5 if thorough else 4, 1),
         ("vam_idle", ([50, 100, 1000], D(none, ["s", 2], ["s", 0]), [2500], True, seed), 7 if thorough else 6, 2),
         ("vam_steady", ([1000, 100], D(none), [], False, seed), 400, 1),
+        # absolute-time lattice: the spacing decision is taken on generationDeltaTime differences, so trajectories are
+        # started shortly before a 65 536 ms wrap (no state merging over absolute time in these parts)
+        ("vam_wrap_250", ([100, 1000], D(none), [], False, seed, 65536 - 250), 12 if thorough else 10, 1),
+        ("vam_wrap_50", ([20, 100, 1000], D(none, ["s", 2], ["s", 0]), [], False, seed, 65536 - 50), 8 if thorough else 6, 1),
     ]
     return cam, vam
 
 
 def _gdt_lattices(ctx, pool, thorough):
     # ---- generationDeltaTime lattices --------------------------------------------------------------
-    # (a) every millisecond of whole 65 536 ms cycles (two cycles straddling a wrap) x microsecond fractions
+    # (a) every millisecond of one (thorough: two) whole 65 536 ms cycle(s) straddling a wrap x microsecond fractions
     k0 = (F.BASE_MS - F.ITS_EPOCH_MS + F.LEAP_MS) // 65536
     base = F.ITS_EPOCH_MS - F.LEAP_MS + k0 * 65536 - 32768
     micros = [0, 999] if not thorough else [0, 1, 500, 999]
-    span = 2 * 65536
+    span = (2 if thorough else 1) * 65536
     step = 4096
     jobs = [(base + i, base + min(i + step, span), micros) for i in range(0, span, step)]
     rng = random.Random(ctx.seed)
@@ -527,7 +539,8 @@ def run(ctx):
         "reference monitors mc/ref/cam_rules.py, mc/ref/vam_rules.py (interpretations listed in their docstrings)",
         "virtual clock on an integer millisecond lattice (now = ms/1000 by fresh division, so int(time*1000) is exact); timers fire exactly at "
         "their due time (zero latency)",
-        "check period 50 ms / 20 ms is obtained by setting the module constant T_CHECK_CAM_GEN (configuration read at call time)",
+        "check period 50 ms / 20 ms is obtained by setting the module constant T_CHECK_CAM_GEN (configuration read at call time); all other "
+        "parts run with the tree's own T_CHECK_CAM_GEN and judge it against the standard value 100 ms",
         "asn1tools decode of the emitted octets is trusted",
     ]
 
@@ -555,6 +568,6 @@ def replay(path):
     for i, ev in enumerate(hist):
         m.apply(w, ev)
         b = [{k: v for k, v in r.items() if k != "_cut"} for r in m.check(w, ev, None, hist[:i + 1])]
-        print(i, ev, "t=+%d ms" % (w.ms - F.BASE_MS), "->", b or "ok")
+        print(i, ev, "t=%d ms" % w.ms, "->", b or "ok")
         bad += b
     return 1 if bad else 0
